@@ -21,6 +21,9 @@ ASSUMPTIONS = [
     "modelled as its code plus the value its data encodes",
     "str(uuid), str(Decimal), date.isoformat(), date.toordinal() are data carried by the value (computed by Python)",
     "zlib.decompress(zlib.compress(x)) == x (C06's oracle assumption, used by compression_transparent)",
+    "the delivered value depends only on (hook table, serializer, path, value): not on the buffer type handed to loads/loadsCall "
+    "(bytes, bytearray, memoryview, memoryview slice), message annotations, correlation id or compression — `wire` has no such "
+    "parameter; checked by observing every case under all of them against one model outcome",
     "dict keys / set elements stay distinct under the mapping (no uuid next to its own str() in one container); dict keys other "
     "than '__class__'; json dict keys are str (the json module's coercion of int/float/bool/None keys to text is outside the model); "
     "no NaN inside set elements or dict keys; msgpack datetime (local-time fromtimestamp) is outside the modelled domain",
@@ -459,25 +462,57 @@ def obs_ok(o):
     return ("ok", o)
 
 
-def run_ser(sname, v):
-    """serializer level: outcomes on the three paths"""
+BUFFERS = ["bytes", "bytearray", "memoryview", "memoryview-slice", "memoryview-bytearray"]
+
+
+def as_buffer(data, kind):
+    """the buffer types the protocol layer can hand to loads/loadsCall: bytes (plain message, or after zlib.decompress),
+    a memoryview slice of the received payload (message with annotation chunks), bytearray / memoryview of it (_convertToBytes)"""
+    data = bytes(data)
+    if kind == "bytes":
+        return data
+    if kind == "bytearray":
+        return bytearray(data)
+    if kind == "memoryview":
+        return memoryview(data)
+    if kind == "memoryview-slice":
+        return memoryview(b"RQST\x00\x00\x00\x02hi" + data)[10:]
+    if kind == "memoryview-bytearray":
+        return memoryview(bytearray(data))
+    raise ValueError(kind)
+
+
+def run_ser(sname, v, buffers=("bytes",)):
+    """serializer level: outcomes on the three paths; keys "arg"/"kwarg"/"result" are the bytes-buffer outcomes,
+    (path, buffer kind) the outcomes for the other buffer types"""
     from Pyro5 import serializers
     s = serializers.serializers[sname]
     out = {}
-    try:
-        out["result"] = obs_ok(s.loads(s.dumps(v)))
-    except Exception as x:
-        out["result"] = (REFUSED, type(x).__name__)
-    try:
-        _, _, a, _ = s.loadsCall(s.dumpsCall("obj", "meth", (v,), {}))
-        out["arg"] = obs_ok(a[0])
-    except Exception as x:
-        out["arg"] = (REFUSED, type(x).__name__)
-    try:
-        _, _, _, kw = s.loadsCall(s.dumpsCall("obj", "meth", (), {"kw": v}))
-        out["kwarg"] = obs_ok(kw["kw"])
-    except Exception as x:
-        out["kwarg"] = (REFUSED, type(x).__name__)
+    dumped = {}
+    for path, dump in (("result", lambda: s.dumps(v)), ("arg", lambda: s.dumpsCall("obj", "meth", (v,), {})),
+                       ("kwarg", lambda: s.dumpsCall("obj", "meth", (), {"kw": v}))):
+        try:
+            dumped[path] = dump()
+        except Exception as x:
+            dumped[path] = x
+    for path in ("result", "arg", "kwarg"):
+        for kind in buffers:
+            d = dumped[path]
+            if isinstance(d, Exception):
+                o = (REFUSED, type(d).__name__)
+            else:
+                try:
+                    if path == "result":
+                        o = obs_ok(s.loads(as_buffer(d, kind)))
+                    elif path == "arg":
+                        o = obs_ok(s.loadsCall(as_buffer(d, kind))[2][0])
+                    else:
+                        o = obs_ok(s.loadsCall(as_buffer(d, kind))[3]["kw"])
+                except Exception as x:
+                    o = (REFUSED, type(x).__name__)
+            out[(path, kind)] = o
+            if kind == "bytes":
+                out[path] = o
     return out
 
 
@@ -522,17 +557,34 @@ class World:
         self.net = loopback.Loopback(self.daemon)
         self.net.__enter__()
         self.proxies = {}
+        self.resp_ann = False
+        # Daemon.annotations() is the documented hook for annotations on every reply (plain, batch, stream items)
+        self.daemon.annotations = lambda: ({"RESP": b"response-annotation"} if world.resp_ann else {})
 
     def flags_stats(self):
-        """(#messages with the COMPRESSED flag, #messages) over requests and replies"""
-        n = c = 0
+        """message counts over requests and replies: total, COMPRESSED flag, annotation chunks present, CORR_ID flag"""
+        st = {"wire_messages": 0, "wire_messages_compressed": 0, "wire_messages_annotated": 0, "wire_messages_corr_id": 0,
+              "wire_messages_annotated_uncompressed": 0}
         for conn in self.net.conns.values():
             for m in conn.requests + conn.replies:
-                if len(m) >= 10:
-                    n += 1
-                    if struct.unpack("!H", m[8:10])[0] & 2:
-                        c += 1
-        return c, n
+                if len(m) >= 20:
+                    flags = struct.unpack("!H", m[8:10])[0]
+                    ann = struct.unpack("!I", m[16:20])[0]
+                    st["wire_messages"] += 1
+                    st["wire_messages_compressed"] += 1 if flags & 2 else 0
+                    st["wire_messages_annotated"] += 1 if ann else 0
+                    st["wire_messages_annotated_uncompressed"] += 1 if ann and not flags & 2 else 0
+                    st["wire_messages_corr_id"] += 1 if flags & 64 else 0
+        return st
+
+    def prep(self, msg):
+        """message-level configuration of the next call: "r" request annotations, "p" response annotations,
+        "c" correlation id.  (Client and daemon share this thread's call context in the loopback, so it is
+        set immediately before every call.)"""
+        from Pyro5.callcontext import current_context
+        current_context.annotations = {"RQST": b"request-annotation"} if "r" in msg else {}
+        current_context.correlation_id = uuid.UUID(int=0x1234567890abcdef1234567890abcdef) if "c" in msg else None
+        self.resp_ann = "p" in msg
 
     def proxy(self, sname):
         p = self.proxies.get(sname)
@@ -554,34 +606,47 @@ class World:
         c = self.config
         c.COMPRESSION, c.SERIALIZER, c.MAX_RETRIES, c.ITER_STREAMING, c.SERPENT_BYTES_REPR = self.saved
 
-    def observe(self, sname, position, v, compress):
+    def observe(self, sname, position, v, compress, msg=""):
         """returns ("ok", delivered object) | ("Refused", exception class name)"""
         self.config.COMPRESSION = bool(compress)
         p = self.proxy(sname)
+        p._pyroBind()
         self.got, self.ret = [], v
         try:
             if position == "positional":
-                p.take(v)
+                take = p.take
+                self.prep(msg)
+                take(v)
                 return obs_ok(self.got[-1][0][0])
             if position == "keyword":
-                p.take(kw=v)
+                take = p.take
+                self.prep(msg)
+                take(kw=v)
                 return obs_ok(self.got[-1][1]["kw"])
             if position == "nested":
-                p.take([v])
+                take = p.take
+                self.prep(msg)
+                take([v])
                 return obs_ok(self.got[-1][0][0])
             if position == "batcharg":
                 b = self.api.BatchProxy(p)
                 b.take(v)
+                self.prep(msg)
                 list(b())
                 return obs_ok([self.got[-1][0][0]])
             if position == "result":
-                return obs_ok(p.give())
+                give = p.give
+                self.prep(msg)
+                return obs_ok(give())
             if position == "batchresult":
                 b = self.api.BatchProxy(p)
                 b.give()
+                self.prep(msg)
                 return obs_ok(list(b()))
             if position == "stream":
-                items = list(p.stream())
+                stream = p.stream
+                self.prep(msg)
+                items = list(stream())
                 if len(items) != 2 or canon(items[0]) != canon(items[1]):
                     return ("ok", ("stream-items-differ", items))
                 return obs_ok(items[0])
@@ -590,9 +655,11 @@ class World:
             return (REFUSED, type(x).__name__)
         finally:
             self.config.COMPRESSION = False
+            self.prep("")
 
 
 # position -> (model path, does the value travel wrapped in a list?)
+MSG_ALL = ["", "r", "p", "c", "rp", "rc", "pc", "rpc"]    # request annotations / response annotations / correlation id
 POSITIONS = {"positional": ("arg", False), "keyword": ("kwarg", False), "nested": ("arg", True), "batcharg": ("arg", True),
              "result": ("result", False), "batchresult": ("result", True), "stream": ("result", False)}
 
@@ -641,6 +708,11 @@ def oracle_ser(sname, v, obs):
         return [("path-asymmetry:" + sname,
                  "%s: %s is delivered as %s when it is a positional argument, %s as a keyword argument, %s as a result"
                  % (sname, show(v), show(obs["arg"]), show(obs["kwarg"]), show(obs["result"])))]
+    for key, o in obs.items():
+        if isinstance(key, tuple) and not same(o, obs[key[0]]):
+            return [("buffer-type-dependent:" + sname,
+                     "%s: %s (%s path) is delivered as %s when the deserializer is handed a %s but as %s when handed bytes"
+                     % (sname, show(v), key[0], show(o), key[1], show(obs[key[0]])))]
     exp = expect_outcome(sname, v)
     if not same(obs["result"], exp):
         sig = ("core-changed:" if is_core(v) else "mapping-differs:") + sname
@@ -654,20 +726,28 @@ def oracle_ser(sname, v, obs):
 
 
 def oracle_e2e(case, obs_by_pos):
-    """end to end: every position delivers what the documented mapping says, with compression off and on"""
+    """end to end: every position delivers what the documented mapping says — with compression off and on, with and
+    without annotations on the request / on the reply, with and without a correlation id"""
     sname, v = case["ser"], build(case["value"])
     for w in ([v], v):      # a defect of the serializer itself is reported under its serializer-level signature
         if not outside(sname, w):
-            found = oracle_ser(sname, w, run_ser(sname, w))
+            found = oracle_ser(sname, w, run_ser(sname, w, BUFFERS))
             if found:
                 return found
     found = []
-    for (pos, comp), obs in obs_by_pos.items():
+    for (pos, comp, msg), obs in obs_by_pos.items():
         path, wrapped = POSITIONS[pos]
         exp = expect_outcome(sname, [v] if wrapped else v)
         if same(obs, exp):
             continue
-        other = obs_by_pos.get((pos, not comp))
+        plain = obs_by_pos.get((pos, comp, ""))
+        if msg and plain is not None and same(plain, exp):
+            kind = "value-changes-with-message-annotations:" if ("r" in msg or "p" in msg) else "value-changes-with-correlation-id:"
+            found.append((kind + sname,
+                          "%s, %s, COMPRESSION=%s: %s is delivered as %s when the messages carry %s, but as %s when they do not"
+                          % (sname, pos, comp, show(v), show(obs), msg_words(msg), show(plain))))
+            continue
+        other = obs_by_pos.get((pos, not comp, msg))
         if other is not None and same(other, exp):
             found.append(("compression-changes-value:" + sname,
                           "%s, %s: %s is delivered as %s with COMPRESSION=%s but as %s without"
@@ -680,9 +760,14 @@ def oracle_e2e(case, obs_by_pos):
                           % (sname, show(v), pos, obs[1])))
             continue
         sig = ("core-changed:" if is_core(v) else "mapping-differs:") + sname
-        found.append((sig, "%s end to end (%s, compression %s): %s is delivered as %s, documented mapping gives %s"
-                      % (sname, pos, comp, show(v), show(obs), show(exp))))
+        found.append((sig, "%s end to end (%s, compression %s, %s): %s is delivered as %s, documented mapping gives %s"
+                      % (sname, pos, comp, msg_words(msg) or "plain messages", show(v), show(obs), show(exp))))
+    found.sort(key=lambda f: (not f[0].startswith("value-changes"), not f[0].startswith("compression")))
     return found[:1]
+
+
+def msg_words(msg):
+    return ", ".join(w for k, w in (("r", "request annotations"), ("p", "response annotations"), ("c", "a correlation id")) if k in msg)
 
 
 def run_case(ctx, case, info, world, res, lits, kept, with_oracle=True):
@@ -692,16 +777,18 @@ def run_case(ctx, case, info, world, res, lits, kept, with_oracle=True):
     v = build(case["value"])
     skip_model = outside(sname, v)
     if case["level"] == "ser":
-        obs = run_ser(sname, v)
+        obs = run_ser(sname, v, BUFFERS)
         res.count("ser:%s:%s" % (sname, obs["result"][0] if obs["result"][0] == "ok" else "refused"))
         if with_oracle and not skip_model:
             for sig, what in oracle_ser(sname, v, obs):
                 res.violations.append({"signature": sig, "what": what, "case": case})
         if not skip_model:
-            for path in ("arg", "kwarg", "result"):
+            for key, o in obs.items():
+                path, kind = key if isinstance(key, tuple) else (key, None)
+                if kind is None:
+                    continue
                 try:
-                    lits.append(c_case(sname, path, v, obs[path], codes))
-                    kept.append((case, path, obs[path]))
+                    add_lit(lits, kept, c_case(sname, path, v, o, codes), (case, "%s/%s" % (path, kind), o))
                 except Unrep as x:
                     res.mismatches.append({"component": "C01:serializer-level", "case": case, "impl": "%s: %s" % (path, x)})
         else:
@@ -710,20 +797,37 @@ def run_case(ctx, case, info, world, res, lits, kept, with_oracle=True):
     obs_by_pos = {}
     for pos in case["positions"]:
         for comp in case["compress"]:
-            obs_by_pos[(pos, comp)] = world.observe(sname, pos, v, comp)
-            res.count("e2e:%s:%s" % (pos, "compress" if comp else "plain"))
+            for msg in case.get("msg", [""]):
+                obs_by_pos[(pos, comp, msg)] = world.observe(sname, pos, v, comp, msg)
+                res.count("e2e:%s:%s" % (pos, "compress" if comp else "plain"))
+                res.count("e2e-msg:" + (msg or "none"))
     if with_oracle and not skip_model:
         for sig, what in oracle_e2e(case, obs_by_pos):
             res.violations.append({"signature": sig, "what": what, "case": case})
     if not skip_model:
-        for (pos, comp), obs in obs_by_pos.items():
+        for (pos, comp, msg), obs in obs_by_pos.items():
             path, wrapped = POSITIONS[pos]
             try:
-                lits.append(c_case(sname, path, [v] if wrapped else v, obs, codes))
-                kept.append((case, "%s/%s" % (pos, "compress" if comp else "plain"), obs))
+                add_lit(lits, kept, c_case(sname, path, [v] if wrapped else v, obs, codes),
+                        (case, "%s/%s/msg=%s" % (pos, "compress" if comp else "plain", msg or "none"), obs))
             except Unrep as x:
                 res.mismatches.append({"component": "C01:end-to-end", "case": case, "impl": "%s: %s" % (pos, x)})
     return obs_by_pos
+
+
+def add_lit(lits, kept, literal, origin):
+    """`wire` has no buffer-type / annotation / correlation-id / compression parameter: observations of one value on one
+    path that agree are ONE model evaluation; any observation that differs is a further case (and then a mismatch)"""
+    if literal not in lits.index:
+        lits.index[literal] = len(lits)
+        lits.append(literal)
+        kept.append(origin)
+
+
+class LitList(list):
+    def __init__(self):
+        list.__init__(self)
+        self.index = {}
 
 
 def straddle_cases(info):
@@ -737,7 +841,7 @@ def straddle_cases(info):
                     for n in range(0, 140):
                         if payload_size(sname, pos, mk(n)) == want:
                             out.append({"level": "e2e", "ser": sname, "value": S(mk(n)), "positions": [pos], "compress": [False, True],
-                                        "note": "payload %d bytes" % want})
+                                        "msg": ["", "rp"], "note": "payload %d bytes" % want})
                             break
     return out
 
@@ -754,20 +858,23 @@ def make_cases(ctx, info):
     e2e = []
     for v in TARGET_VALUES[:24] + [uuid.UUID(int=5), [uuid.UUID(int=5)], b"abc", {"k": (1, 2)}, "x" * 300, list(range(60))]:
         for sname in SERS:
-            e2e.append({"level": "e2e", "ser": sname, "value": S(v), "positions": list(POSITIONS), "compress": [False, True]})
+            e2e.append({"level": "e2e", "ser": sname, "value": S(v), "positions": list(POSITIONS), "compress": [False, True],
+                        "msg": MSG_ALL if len(e2e) % 3 == 0 else ["", "r", "p", "rpc"]})
     for spec in gen_values(ctx, ctx.n(40, 500)):
         sname = rng.choice(SERS)
-        e2e.append({"level": "e2e", "ser": sname, "value": spec, "positions": list(POSITIONS), "compress": [False, True]})
+        e2e.append({"level": "e2e", "ser": sname, "value": spec, "positions": list(POSITIONS), "compress": [False, True],
+                    "msg": ["", rng.choice(MSG_ALL[1:]), rng.choice(MSG_ALL[1:])]})
     big = gen_values(ctx, ctx.n(12, 120))
     for i, spec in enumerate(big):     # large payloads: compression really happens
         sname = SERS[i % 4]
         e2e.append({"level": "e2e", "ser": sname, "value": ["list", [spec] * 5 + [["str", [97] * 150]]],
-                    "positions": ["positional", "keyword", "result", "batchresult", "stream"][i % 5:][:2], "compress": [False, True]})
+                    "positions": ["positional", "keyword", "result", "batchresult", "stream"][i % 5:][:2], "compress": [False, True],
+                    "msg": ["", "rp"]})
     return cases + straddle_cases(info) + e2e
 
 
 def execute(ctx, cases, model_ok, res, info, with_oracle=True):
-    lits, kept = [], []
+    lits, kept = LitList(), []
     world = None
     try:
         for case in cases:
@@ -777,9 +884,7 @@ def execute(ctx, cases, model_ok, res, info, with_oracle=True):
             res.seen(case, True)
     finally:
         if world is not None:
-            c, n = world.flags_stats()
-            res.extra["wire_messages"] = n
-            res.extra["wire_messages_compressed"] = c
+            res.extra.update(world.flags_stats())
             world.close()
     res.extra["model_evaluations"] = len(lits)
     if model_ok:
@@ -794,8 +899,11 @@ RULE = ("values: own generator over None/bool/int (boundaries of 8..64 bits, up 
         "subnormals)/text (ascii, BMP, astral, NUL; no surrogates)/bytes/complex/uuid/Decimal/date, nested in list/tuple/set/frozenset/"
         "dict (str keys mostly, also int/float/bool/None/tuple/bytes/frozenset/complex/uuid keys) to depth 4 (quick) / 6 (thorough), "
         "40% drawn from the lossless core only; plus ~90 targeted values. Each value x 4 serializers at the serializer level "
-        "(positional, keyword, result = 3 model evaluations); end to end through the loopback transport for 7 positions x compression "
-        "off/on, incl. payloads of exactly threshold-1..threshold+2 bytes and large compressible payloads. "
+        "(positional, keyword, result, each deserialized from bytes / bytearray / memoryview / memoryview slice / memoryview of "
+        "bytearray); end to end through the loopback transport for 7 positions x compression off/on x message configuration (request "
+        "annotations, response annotations via Daemon.annotations(), correlation id: all 8 combinations for a third of the targeted "
+        "values, 4 for the rest, 2 random ones for generated values), incl. payloads of exactly threshold-1..threshold+2 bytes and "
+        "large compressible payloads; observations of one value on one path that agree are one model evaluation. "
         "distinct = distinct (level, serializer, value) cases")
 
 
